@@ -7,18 +7,18 @@ import vcheck as V
 SP = os.path.join(V.SPEC, 'avoid', 'Simplify.tla')
 
 
-def _cfg(d, name, spec, legs, maxcp, inv):
+def _cfg(d, name, spec, legs, maxcp, inv, glegs=1):
     p = os.path.join(d, name + '.cfg')
-    open(p, 'w').write('SPECIFICATION %s\nCONSTANTS\n LEGS = %d\n MAXCP = %d\n FIX = TRUE\n%sCHECK_DEADLOCK FALSE\n' % (spec, legs, maxcp, ('INVARIANT %s\n' % inv) if inv else ''))
+    open(p, 'w').write('SPECIFICATION %s\nCONSTANTS\n LEGS = %d\n GLEGS = %d\n MAXCP = %d\n FIX = TRUE\n%sCHECK_DEADLOCK FALSE\n' % (spec, legs, glegs, maxcp, ('INVARIANT %s\n' % inv) if inv else ''))
     return p
 
 
 def stage(ev, vd, d, quick):
     hg, = V.build(['h_geom'])
-    legs, maxcp = (5, 2) if quick else (7, 2)
+    legs, maxcp, glegs = (5, 2, 4) if quick else (7, 2, 5)
     # design level: the loop with the re-indexing rule of the comment/diagram meets the postcondition on every instance
-    r = V.tlc(SP, _cfg(d, 'simp_design', 'DSpec', legs, maxcp, 'Post'), env={'SIMPRECS': '/dev/null'}, timeout=900, workers=8)
-    ev.add_tlc('design: Simplify.tla loop (Keep/Drop/Return) meets Post on every staircase route of <= %d legs with <= %d checkpoints' % (legs, maxcp), r)
+    r = V.tlc(SP, _cfg(d, 'simp_design', 'DSpec', legs, maxcp, 'Post', glegs), env={'SIMPRECS': '/dev/null'}, timeout=900, workers=8)
+    ev.add_tlc('design: Simplify.tla loop (Keep/Drop/Return) meets Post on every staircase route of <= %d legs and every self-avoiding four-direction route of <= %d legs, with <= %d checkpoints' % (legs, glegs, maxcp), r)
     if r.violated:
         raise V.Broken('Simplify.tla: the design model does not meet its own postcondition\n' + r.out[-2000:])
     # the same model with the re-indexing rule the code had before fix 98eb188 must violate Post (the model can tell the two apart)
@@ -28,7 +28,7 @@ def stage(ev, vd, d, quick):
         raise V.Broken('Simplify.tla with FIX = FALSE no longer violates Post: the design model lost its discriminating power')
     # B1: the same instances written out and run through the real Polygon::simplify()
     gf = os.path.join(d, 'simp_inst.json')
-    V.tlc(SP, _cfg(d, 'simp_gen', 'GenSpec', legs, maxcp, None), env={'SIMPGEN': gf, 'SIMPRECS': '/dev/null'}, workers=1, timeout=900, mem='8g')
+    V.tlc(SP, _cfg(d, 'simp_gen', 'GenSpec', legs, maxcp, None, glegs), env={'SIMPGEN': gf, 'SIMPRECS': '/dev/null'}, workers=1, timeout=900, mem='8g')
     insts = json.load(open(gf))
     tf = os.path.join(d, 'simp_inst.txt')
     with open(tf, 'w') as f:
